@@ -14,7 +14,8 @@ use des::prelude::*;
 use serde_json::{json, Value};
 use std::any::Any;
 use std::cell::RefCell;
-use std::collections::{BTreeMap, VecDeque};
+use std::collections::{BTreeMap, BTreeSet, BinaryHeap, HashMap, HashSet, LinkedList, VecDeque};
+use std::net::{IpAddr, Ipv4Addr, Ipv6Addr, SocketAddr};
 use std::fmt::Debug;
 use vcommon::tracked::{self, Tracked};
 use vcommon::{Args, Hasher64, Report, Rng};
@@ -227,6 +228,56 @@ plain!(TrA, "TrA(tracked)", |v| TrA(Tracked::with_value("body-TrA", v)), |v| (v 
 plain!(TrB, "TrB(tracked)", |v| TrB(Tracked::with_value("body-TrB", v)), |v| (v % 50) as usize);
 plain!(ZstTok, "ZstTok(zero sized, counted drops)", |_v| ZstTok::create(), |_v| 0);
 
+
+/// a BinaryHeap has no PartialEq: compared through its sorted content
+#[derive(Debug, Clone, MessageBody)]
+pub struct Heap(BinaryHeap<u16>);
+impl PartialEq for Heap {
+    fn eq(&self, other: &Self) -> bool {
+        self.0.clone().into_sorted_vec() == other.0.clone().into_sorted_vec()
+    }
+}
+
+const WORDS: &[&str] = &["", "a", "bcd", "efghij", "käse", "0123456789abcdef"];
+const SLICES: &[&[u16]] = &[&[], &[1], &[1, 2, 3], &[9; 17]];
+type Addrs = (IpAddr, SocketAddr, Duration, SimTime);
+type Ints = (u16, usize, i8, i16, i64, i128, isize, f64);
+type Eight = (u8, u16, u32, u64, String, bool, char, ());
+
+fn ip_of(v: u64) -> IpAddr {
+    if v % 2 == 0 {
+        IpAddr::V4(Ipv4Addr::new(10, 0, (v >> 8) as u8, v as u8))
+    } else {
+        IpAddr::V6(Ipv6Addr::new(0xfe80, 0, 0, 0, 0, 0, (v >> 16) as u16, v as u16))
+    }
+}
+
+// collections whose elements have differing declared lengths (s_of(v + i) has (v + i) % 23 + digits bytes)
+plain!([String; 3], "[String;3]", |v| [s_of(v), s_of(v / 3), s_of(v / 7)], |v| s_len(v) + s_len(v / 3) + s_len(v / 7));
+plain!(
+    [Option<u32>; 4],
+    "[Option<u32>;4]",
+    |v| [0u64, 1, 2, 3].map(|i| if (v >> i) & 1 == 0 { None } else { Some(i as u32) }),
+    |v| 4 * (0..4).filter(|i| (v >> i) & 1 == 1).count()
+);
+plain!(LinkedList<String>, "LinkedList<String>", |v| (0..(v % 5)).map(|i| s_of(v + i)).collect(), |v| (0..(v % 5)).map(|i| s_len(v + i)).sum());
+plain!(HashMap<u8, String>, "HashMap<u8,String>", |v| (0..(v % 40)).map(|i| (i as u8, s_of(v + i))).collect(), |v| (0..(v % 40)).map(|i| 1 + s_len(v + i)).sum());
+plain!(HashSet<String>, "HashSet<String>", |v| (0..(v % 37)).map(|i| s_of(v + i)).collect(), |v| (0..(v % 37)).map(|i| s_len(v + i)).sum());
+plain!(BTreeSet<String>, "BTreeSet<String>", |v| (0..(v % 7)).map(|i| s_of(v + i)).collect(), |v| (0..(v % 7)).map(|i| s_len(v + i)).sum());
+plain!(Heap, "derive struct Heap(BinaryHeap<u16>)", |v| Heap((0..(v % 11)).map(|i| (v as u16).wrapping_mul(i as u16 + 1)).collect()), |v| 2 * (v % 11) as usize);
+plain!(
+    Addrs,
+    "(IpAddr,SocketAddr,Duration,SimTime)",
+    |v| (ip_of(v), SocketAddr::new(ip_of(v / 2), v as u16), Duration::from_nanos(v), SimTime::from_duration(Duration::from_nanos(v / 3))),
+    |v| (if v % 2 == 0 { 4 } else { 16 }) + (if (v / 2) % 2 == 0 { 6 } else { 18 }) + 16 + 16
+);
+plain!(Vec<String>, "Vec<String>", |v| (0..(v % 6)).map(|i| s_of(v + 5 * i)).collect(), |v| (0..(v % 6)).map(|i| s_len(v + 5 * i)).sum());
+plain!(&'static str, "&'static str", |v| WORDS[(v % WORDS.len() as u64) as usize], |v| WORDS[(v % WORDS.len() as u64) as usize].len());
+plain!(&'static [u16], "&'static [u16]", |v| SLICES[(v % SLICES.len() as u64) as usize], |v| 2 * SLICES[(v % SLICES.len() as u64) as usize].len());
+plain!((u8,), "(u8,)", |v| (v as u8,), |_v| 1);
+plain!(Eight, "8-tuple", |v| (v as u8, v as u16, v as u32, v, s_of(v), v % 2 == 0, 'x', ()), |v| 1 + 2 + 4 + 8 + s_len(v) + 1 + 4);
+plain!(Ints, "(u16,usize,i8,i16,i64,i128,isize,f64)", |v| (v as u16, v as usize, v as i8, v as i16, v as i64, i128::from(v), v as isize, v as f64), |_v| 2 + 8 + 1 + 2 + 8 + 16 + 8 + 8);
+
 impl Zoo for NonClone {
     const NAME: &'static str = "NonClone(tracked)";
     const HOW: How = How::NonClonable;
@@ -261,7 +312,7 @@ impl Zoo for NoDebug {
     }
 }
 
-pub const N_TYPES: usize = 30;
+pub const N_TYPES: usize = 44;
 
 macro_rules! dispatch {
     ($tag:expr, $f:ident, $($arg:expr),*) => {
@@ -295,7 +346,21 @@ macro_rules! dispatch {
             26 => $f::<TrB>($($arg),*),
             27 => $f::<NonClone>($($arg),*),
             28 => $f::<NoDebug>($($arg),*),
-            _ => $f::<ZstTok>($($arg),*),
+            29 => $f::<ZstTok>($($arg),*),
+            30 => $f::<[String; 3]>($($arg),*),
+            31 => $f::<[Option<u32>; 4]>($($arg),*),
+            32 => $f::<LinkedList<String>>($($arg),*),
+            33 => $f::<HashMap<u8, String>>($($arg),*),
+            34 => $f::<HashSet<String>>($($arg),*),
+            35 => $f::<BTreeSet<String>>($($arg),*),
+            36 => $f::<Heap>($($arg),*),
+            37 => $f::<Addrs>($($arg),*),
+            38 => $f::<Vec<String>>($($arg),*),
+            39 => $f::<&'static str>($($arg),*),
+            40 => $f::<&'static [u16]>($($arg),*),
+            41 => $f::<(u8,)>($($arg),*),
+            42 => $f::<Eight>($($arg),*),
+            _ => $f::<Ints>($($arg),*),
         }
     };
 }
